@@ -75,7 +75,7 @@ def norm_meta(m):
 
 
 class Engine:
-    def __init__(self, spec=None, *, typed=False, flavour="str", spec2=None, tree=None, fl=None, known=()):
+    def __init__(self, spec=None, *, typed=False, flavour="str", spec2=None, tree=None, fl=None, known=(), tree2=None):
         self.typed = typed
         self.known = set(known)  # ids of active known findings whose defect model is applied
         self.excluded = Counter()
@@ -84,7 +84,10 @@ class Engine:
             self.tree, _ = build(spec or [], flavour=self.fl, typed=typed, name="T1")
         else:
             self.tree = tree
-        self.tree2, _ = build(spec2 or [], flavour=self.fl, typed=typed, name="T2")
+        if tree2 is None:
+            self.tree2, _ = build(spec2 or [], flavour=self.fl, typed=typed, name="T2")
+        else:
+            self.tree2 = tree2
         self.uids = Uids()
         self.real_of = {}  # model uid -> real node
         self.uid_of_real = {}  # id(real node) -> model uid
@@ -429,6 +432,77 @@ class Engine:
 
         return Plan("valid", route, call=call, apply=apply2)
 
+    def _op_copy_from2(self, src_ref, target_ref, add_self, before, deep):
+        """<node of the second tree>.copy_to(<target in tree 1>, ...)  (cross-tree copy_to)"""
+        route = "copy_from2" + ("" if add_self else ":children") + (":deep" if deep else "")
+        mt = self.model
+        src, rsrc = self._src(1, src_ref)
+        if src is None:
+            return Plan("na", route)
+        target = self.parent_of(target_ref)
+        rtarget = self.real(target)
+        if not add_self:
+            before = None
+        mb, rb = self.decode_before(target, before)
+        call = lambda: rsrc.copy_to(rtarget, add_self=add_self, before=rb, deep=deep)  # noqa: E731
+        if add_self:
+            res = resolve_before(target, mb)
+            if res[0] == "unspecified":
+                return Plan("unspecified", route + ":" + res[1], call=call)
+            collide = mt.has_sibling_id(target, src.data_id)
+            if res[0] == "invalid":
+                return Plan("refuse", route + ":before-not-a-child", call=call, exc=E_POSITION + E_UNIQUE if collide else E_POSITION)
+            if collide:
+                return Plan("refuse", route + ":collision", call=call, exc=E_UNIQUE)
+
+            def apply():
+                n = mt.copy_branch(src, bool(deep), kind_override=self._top_copy_kind(src))
+                mt.insert(target, n, res[1])
+                return n
+
+            return Plan("valid", route, call=call, apply=apply)
+        if not src.children:
+            return Plan("refuse", route + ":no-children", call=call, exc=E_VALUE)
+        if any(mt.has_sibling_id(target, c.data_id) for c in src.children):
+            return Plan("refuse", route + ":collision", call=call, exc=E_UNIQUE)
+
+        def apply2():
+            first = None
+            for c in list(src.children):
+                n = mt.copy_branch(c, bool(deep), kind_override=self._top_copy_kind(c))
+                mt.insert(target, n, None)
+                first = first or n
+            return first
+
+        return Plan("valid", route, call=call, apply=apply2)
+
+    def _op_tree2_copy_to(self, target_ref, deep):
+        """<second tree>.copy_to(<target in tree 1>, deep=...)"""
+        route = "tree2.copy_to" + ("" if deep is None or deep else ":shallow")
+        mt = self.model
+        target = self.parent_of(target_ref)
+        rtarget = self.real(target)
+        kw = {}
+        if deep is not None:
+            kw["deep"] = deep
+        call = lambda: self.tree2.copy_to(rtarget, **kw)  # noqa: E731
+        tops = list(self.model2.root.children)
+        if not tops:
+            return Plan("unspecified", route + ":empty-source", call=call)
+        if any(mt.has_sibling_id(target, t.data_id) for t in tops):
+            return Plan("refuse", route + ":collision", call=call, exc=E_UNIQUE)
+        dp = True if deep is None else bool(deep)
+
+        def apply():
+            for t in tops:
+                n = mt.copy_branch(t, dp, kind_override=self._top_copy_kind(t))
+                mt.insert(target, n, None)
+            return None
+
+        p = Plan("valid", route, call=call, apply=apply)
+        p.note = "no-return-check"
+        return p
+
     def _op_add_tree(self, parent_ref, before, deep):
         route = "add_tree"
         mt = self.model
@@ -483,7 +557,7 @@ class Engine:
         if mt.is_inside(target, n):
             return Plan("refuse", route + ":into-own-branch", call=call, exc=E_TARGET + E_UNIQUE)
         if mb is n:
-            return Plan("unspecified", route + ":before-self")
+            return Plan("unspecified", route + ":before-self", call=call)
         same_parent = target is n.parent
         if same_parent and isinstance(mb, int) and not isinstance(mb, bool) and mb != 0:
             return Plan("unspecified", route + ":int-position-in-same-parent")
@@ -529,50 +603,69 @@ class Engine:
             kw["with_clones"] = True
         call = lambda: rn.remove(**kw)  # noqa: E731
         victims = mt.group(n.data_id) if with_clones else [n]
-        if with_clones and len(victims) > 1:
-            nested = any(a is not b and mt.is_inside(a, b) for a in victims for b in victims)
-            if nested and keep_children:
-                return Plan("unspecified", route + ":nested-clones+keep_children", call=call)
+
+        def is_victim(x):
+            return any(x is v for v in victims)
+
         if keep_children:
             if self.typed and any(v.children for v in victims):
                 return Plan("unspecified", route + ":typed-keep_children", call=call)
-            for v in victims:
-                for c in v.children:
-                    if mt.has_sibling_id(v.parent, c.data_id, ignore=(v,)):
-                        return Plan("refuse", route + ":collision", call=call, exc=E_UNIQUE)
-            if with_clones and len(victims) > 1:
-                # two victims under one parent cannot happen (sibling uniqueness); children of
-                # different victims that land under the same parent could collide
-                seen = {}
-                for v in victims:
-                    for c in v.children:
-                        key = (id(v.parent), c.data_id)
-                        if key in seen:
-                            return Plan("unspecified", route + ":children-of-clones-collide", call=call)
-                        seen[key] = 1
-        relaxed = []
 
-        def apply():
+            def remaining(nodes):
+                out = []
+                for c in nodes:
+                    if is_victim(c):
+                        out.extend(remaining(c.children))
+                    else:
+                        out.append(c)
+                return out
+
+            tops = [v for v in victims if not is_victim(v.parent)]
+            parents = []
+            for v in tops:
+                if not any(v.parent is p for p in parents):
+                    parents.append(v.parent)
+            for p in parents:
+                ids = [c.data_id for c in remaining(p.children)]
+                if len(set(ids)) != len(ids):
+                    return Plan("refuse", route + ":collision", call=call, exc=E_UNIQUE)
+            relaxed = []
+
+            def apply():
+                for p in parents:
+                    old = [c for c in p.children if not is_victim(c)]
+                    final = remaining(p.children)
+                    for c in final:
+                        c.parent = p
+                    p.children = final
+                    relaxed.append((p, old))
+                for v in victims:
+                    v.parent = None
+                    v.children = []
+                return None
+
+            pl = Plan("valid", route + (":nested" if len(tops) < len(victims) else ""), call=call, apply=apply)
+            pl.note = "no-return-check"
+            pl.relaxed = ("unnest", relaxed)
+            return pl
+
+        def apply2():
             for v in victims:
                 if v.parent is None:
-                    continue  # already gone with an enclosing victim
-                p = v.parent
-                if keep_children and v.children:
-                    i = mt.index_of(v)
-                    kids = list(v.children)
-                    old = [c for c in p.children if c is not v]
-                    v.children = []
-                    for j, c in enumerate(kids):
-                        c.parent = p
-                        p.children.insert(i + j, c)
-                    relaxed.append((p, old))
+                    continue
+                x, gone = v.parent, False
+                while x is not None and x is not mt.root:
+                    if x.parent is None:
+                        gone = True
+                        break
+                    x = x.parent
+                if gone:
+                    continue  # already left with an enclosing victim
                 mt.detach(v)
             return None
 
-        pl = Plan("valid", route, call=call, apply=apply)
+        pl = Plan("valid", route, call=call, apply=apply2)
         pl.note = "no-return-check"
-        if keep_children:
-            pl.relaxed = ("unnest", relaxed)
         return pl
 
     def _op_remove_children(self, ref):
